@@ -36,19 +36,22 @@ PROPS = {
                  'version both match, otherwise it is rejected (no recreation allowed: nothing deleted) or deleted and recreated completely; every '
                  'statement is prepared from its own SQL text on the open connection; no SQLite call on a closed or null connection; the key column is '
                  'declared with TEXT/BLOB affinity; setRuleResult binds every field of a result to the column the table declares for it and encodes '
-                 'the dependency list word by word (db id << 2 | single-use << 1 | order-only) in order -- the inverse of what lookupRuleResult decodes',
+                 'the dependency list word by word (db id << 2 | single-use << 1 | order-only) in order -- the inverse of what lookupRuleResult decodes; '
+                 'getCurrentEpoch / setCurrentIteration read and write the iteration column of info with the value given, finalize their statement; '
+                 'getKeyIDFromDB finds or inserts a key by its text with its byte length; getKeyID caches a non-zero id both ways',
         'not_decided': ['SQLite itself (statement semantics, BEGIN EXCLUSIVE, atomic commit)',
-                        'getKeyID / getKeyIDFromDB (the key table insert path) are used through an assumed functional view',
+                        'setRuleResult uses getKeyID through an assumed functional view (getKeyID / getKeyIDFromDB themselves are proved)',
                         'getKeyIDForID is used inside lookupRuleResult through an assumed functional view (its cache/db consistency is not proved)'],
     },
     'C04': {
-        'units': ['engine_build', 'sqlite_open'],
+        'units': ['engine_build', 'sqlite_open', 'sqlite'],
         'design_ref': 'DESIGN.md section 4, C04',
         'claim': 'every commit point of a build is consistent: buildStarted precedes and buildComplete follows all database work of a build, the epoch '
                  'is advanced before any task runs, and before the transaction commits the new epoch has been handed to the database in the same '
                  'transaction (so the stored epoch is never smaller than a stored result\'s epochs); nothing is left open; open() creates the schema '
                  'inside one BEGIN EXCLUSIVE .. END transaction, closes the connection when that fails, deletes a database only on a version mismatch '
-                 'with recreation allowed, and never issues a PRAGMA that switches journaling or synchronous writes off',
+                 'with recreation allowed, and never issues a PRAGMA that switches journaling or synchronous writes off; buildStarted succeeds only if BEGIN EXCLUSIVE '
+                 'did; buildComplete commits with END on the open connection and then closes it',
         'not_decided': ['the enumeration of kill points, journal recovery and fsync (SQLite atomic commit is assumed)',
                         'setRuleResult / key table contents (U-db units)', 'that continued builds return clean results (lemma L1)'],
     },
